@@ -10,11 +10,14 @@ EXTENDS Words, TLC, Json
 VARIABLES c, ready
 vars == <<c, ready>>
 Init == /\ ready = FALSE
-        /\ \E i \in 1..Len(Table), k \in 1..Len(TagMaps), depth \in {0, 1} :
-             \E S \in (SUBSET (1..Len(Table[i].ins))) \ {{}} :
-               /\ (depth = 1 => \A p \in S : HasInner(Table[i].ins[p]))
-               /\ ~(k = 3 /\ Table[i].cls = "fmt")               \* the formatting tag is not applied to the words that honour it
-               /\ c = [i |-> i, k |-> k, depth |-> depth, S |-> S]
+        /\ \/ \E i \in 1..Len(Table), k \in 1..Len(TagMaps), depth \in {0, 1} :
+                \E S \in (SUBSET (1..Len(Table[i].ins))) \ {{}} :
+                  /\ (depth = 1 => \A p \in S : HasInner(Table[i].ins[p]))
+                  /\ ~(k = 3 /\ Table[i].cls = "fmt")               \* the formatting tag is not applied to the words that honour it
+                  /\ c = [i |-> i, k |-> k, depth |-> depth, S |-> S]
+           \* a tagged value sent through a carrier (i = 0): depth = index of the carrier, S = {index of the type}
+           \/ \E ci \in 1..Len(Carriers), ti \in 1..Len(CarryTypes), k \in 1..Len(TagMaps) :
+                c = [i |-> 0, k |-> k, depth |-> ci, S |-> {ti}]
 Step == ~ready /\ ready' = TRUE /\ UNCHANGED c
 Spec == Init /\ [][Step]_vars
 
@@ -24,6 +27,9 @@ Arg(t, tagged) ==
   ELSE InnerTagged(t, TagMaps[c.k])
 Plain  == [p \in 1..Len(Table[c.i].ins) |-> Sample(Table[c.i].ins[p])]
 Tagged == [p \in 1..Len(Table[c.i].ins) |-> Arg(Table[c.i].ins[p], p \in c.S)]
-Export == ready => PrintT(<<"REPLAY", ToJson([w |-> Table[c.i].w, cls |-> Table[c.i].cls, plain |-> Plain, tagged |-> Tagged,
+CarryValue == Sample(CarryTypes[CHOOSE t \in c.S : TRUE]) \o " " \o TagMaps[c.k]
+ExportCarry == PrintT(<<"REPLAY", ToJson([w |-> "", cls |-> "keeps", plain |-> <<CarryValue>>,
+                                          tagged |-> <<Carriers[c.depth][1], CarryValue, Carriers[c.depth][2]>>, k |-> c.k, depth |-> 0])>>)
+Export == ready => IF c.i = 0 THEN ExportCarry ELSE PrintT(<<"REPLAY", ToJson([w |-> Table[c.i].w, cls |-> Table[c.i].cls, plain |-> Plain, tagged |-> Tagged,
                                                  k |-> c.k, depth |-> c.depth])>>)
 =============================================================================
